@@ -87,6 +87,19 @@ func runFiles(r *vt.Run, t vt.TB, s fileSpec) {
 			r.Harness(t, "late insert: %v", err)
 		}
 	}
+	if added > 0 && s.Late > 0 {
+		// ... and rows that store NULL in the added columns, whatever their
+		// defaults are: a stored NULL is a NULL (only a column the row does
+		// not have at all reads as its default)
+		nulls := strings.Repeat(", NULL", added)
+		if err := fileEnv.O.Exec("f", "INSERT INTO t ("+strings.Join(append([]string{"c0"}, cols[3:]...), ", ")+") VALUES (?"+nulls+")", val.Int(2000)); err != nil {
+			if _, ok := err.(*oracle.SQLError); !ok {
+				r.Harness(t, "insert of stored NULLs: %v", err)
+			}
+		} else {
+			r.Count("files:rows-with-stored-nulls-in-columns-with-defaults", 1)
+		}
+	}
 	want, err := fileEnv.O.Query("f", "SELECT "+strings.Join(cols, ", ")+" FROM t ORDER BY rowid")
 	if err != nil {
 		r.Harness(t, "select: %v", err)
